@@ -208,13 +208,14 @@ func (dm *DMap) syncPutOnCluster(e *env, nt storage.Entry) error {
 		rc := dm.s.client.Get(owner.String())
 		cmd := protocol.NewPutEntry(dm.name, e.key, encodedEntry).Command(dm.s.ctx)
 		err := rc.Process(dm.s.ctx, cmd)
-		if err != nil {
-			return protocol.ConvertError(err)
+		if err == nil {
+			err = cmd.Err()
 		}
-		err = protocol.ConvertError(cmd.Err())
 		if err != nil {
+			// This copy could not be stored, an unreachable replica included. It
+			// is the write quorum that decides whether the operation fails.
 			if dm.s.log.V(3).Ok() {
-				dm.s.log.V(3).Printf("[ERROR] Failed to call put command on %s for DMap: %s: %v", owner, e.dmap, err)
+				dm.s.log.V(3).Printf("[ERROR] Failed to call put command on %s for DMap: %s: %v", owner, e.dmap, protocol.ConvertError(err))
 			}
 			continue
 		}
